@@ -46,7 +46,7 @@ CLAIMED = {
    technique='deterministic simulation (single driver task): terminating cause x position enumeration by generation; is_subscribed probes inside instrumented sources',
    note="The instant an operator has all it needs is observed by a pass-through probe stage written like the crate's own map. Sampling, not enumeration of all pipelines."),
  'C17': dict(level='fault_enumeration', design='5.17',
-   text="Generated pipelines (optionally with observe_on/subscribe_on) over finite sources; a counting token is cloned into the three subscribe callbacks, every operator closure and every item; endings: complete, error, cancel at every position. The harness then drops its Observable, Subscription and source handles and lets workers drain. Oracle: no owner of a token is left.",
+   text="Generated pipelines (optionally with observe_on/subscribe_on) over finite sources; a counting token is cloned into the three subscribe callbacks, every operator closure and every item; endings: complete, error, cancel at every position. The harness then drops its Observable, Subscription and source handles and lets workers drain. Oracle: no owner of a token is left. The family also covers the sharing operators ref_count / replay and streams backed by a ReplaySubject.",
    technique='deterministic simulation: ending-cause x position faults; drop-counting token conservation at quiescence',
    note="Only subscriptions that ended are judged. The harness stores token-free copies of recorded items."),
  'C14': dict(level='exploration', design='5.14',
